@@ -71,9 +71,19 @@ def finish(pid, P, props, tier, seed, results, known, t0, warnings, scratch_root
     known_hits = []
     undecided = []
     obligations = []
+    ufilters = P.get("unit_filters", {})
+
+    def in_scope(unit, ob_id):
+        # a property may use only part of a unit: `unit_filters` lists the obligation patterns (after `unit::`) it relies on
+        pats = ufilters.get(unit)
+        if not pats:
+            return True
+        lab = ob_id.split("::", 1)[1] if "::" in ob_id else ob_id
+        return any(fnmatch.fnmatch(lab, pt) for pt in pats)
+
     for r in results:
         for o in r.get("obligations", []):
-            if not owned_elsewhere(props, pid, o["id"]):
+            if not owned_elsewhere(props, pid, o["id"]) and in_scope(r["unit"], o["id"]):
                 obligations.append(o)
         for u in r.get("undecided", []):
             undecided.append("%s: %s" % (r["unit"], u))
@@ -103,7 +113,7 @@ def finish(pid, P, props, tier, seed, results, known, t0, warnings, scratch_root
             r = dict(r, failures=inside)
         for f in r.get("failures", []):
             ob_id = "%s::%s" % (r["unit"], f["label"])
-            if owned_elsewhere(props, pid, ob_id):
+            if owned_elsewhere(props, pid, ob_id) or not in_scope(r["unit"], ob_id):
                 continue
             k = kf_match(known, pid, ob_id, (f.get("site_text") or "") + " " + (f.get("site") or ""))
             rec = dict(f)
@@ -163,7 +173,7 @@ def finish(pid, P, props, tier, seed, results, known, t0, warnings, scratch_root
                 "rewrites_applied": r.get("rewrites"), "vacuity": r.get("vacuity"),
                 "functions": r.get("functions"),
                 "obligation_ids": [o["id"] for o in r.get("obligations", [])],
-                "bounded": r.get("bounded"), "cvc5_crosscheck": r.get("cvc5"),
+                "bounded": r.get("bounded"), "cvc5_crosscheck": r.get("cvc5"), "reused": r.get("reused"),
             } for r in results],
             "functions_under_contract": sorted(set("%s::%s" % (r["unit"], f["function"]) for r in results for f in r.get("functions", []) if f.get("mode") in ("exec", "kani", "skel"))),
             "known_findings_matched": [k.get("obligation") for k, _ in known_hits],
